@@ -56,12 +56,15 @@ TRUSTED_EXTRA = [
     "the decoder thread: decoder_worker is replaced by the harness (as the property's anchor prescribes) and the (codec, JitterFrame) items are read from __decoder_queue",
     "header extensions (abs_send_time from the clock, mid) are not part of the sender model; the oracle compares retransmissions with the originals byte-wise instead",
     "the remote bitrate estimator / REMB feedback (C15) and StreamStatistics (C18) run in the real receiver but are not modelled here; REMB and RR packets are filtered from the trace",
+    "wall-clock time: the names `time` and `clock` of rtcrtpsender / rtcrtpreceiver are replaced by harness shims for the duration of a case, so that the script decides how much time passes between two events",
     "the encoder: get_encoder is replaced by a scripted encoder whose pack() returns the case's payload lists; VP8/H264 packetisation itself is C16",
 ]
 RULE = ("nack/tsmap: sequences built from an unwrapped index walk (steps 1, small gaps, bursts up to 300, back-steps, duplicates, jumps around 128/32768) from origins near the 16/32-bit wrap; "
-        "sender: op lists (frames of 0..8 payloads, NACK lists aimed at history boundaries 127/128/129 back, aliases +-65536, random) with RTX on/off; "
+        "sender: op lists (frames of 0..8 payloads, NACK lists aimed at history boundaries 127/128/129 back, aliases +-65536, random, wall-clock steps 0..10 s between ops) "
+        "over negotiated codec lists of every shape (sending codec = codecs[0] with/without its own rtx, rtx of other codecs before/after, rtx before its base codec, duplicates, none); "
         "receiver: scripted packet lists incl. unknown payload types, RTX from unknown SSRC, short RTX payloads, undecodable / empty payloads, jumps over the buffer; "
-        "pair: frames of 1..8 packets (VP8 or H264 payloads), sequence/timestamp origins near the wrap, RTX on/off, header extensions on/off, network families "
+        "pair: frames of 1..8 packets (VP8 or H264 payloads), sequence/timestamp origins near the wrap, the same codec-list shapes, header extensions on/off, a scripted wall clock "
+        "(sender pauses, late feedback, slow deliveries, 0..10 s each, in half of the cases), network families "
         "clean / recover (loss, duplication, bounded reordering of first transmissions; feedback and retransmissions delivered) / chaos (everything lossy, bursts beyond the buffer) / late (holds >= 100); "
         "distinct = distinct canonical case (sha1 of JSON)")
 
@@ -721,7 +724,7 @@ def origins(rng):
 class Sender(_Cached):
     name = "sender"
     theorems = ["packetise_seq", "packetise_fields", "history_hit", "history_miss", "history_last128", "retransmit_verbatim",
-                "retransmit_rtx_invertible", "rtx_seq_counter"]
+                "retransmit_rtx_invertible", "rtx_seq_counter", "rtxFor_spec"]
 
     def corpus(self):
         one = ["10aa"]
